@@ -511,6 +511,8 @@ class Engine:
     def e_Set(self, node, st):
         vals = [self.eval(e, st) for e in node.elts]
         et = vals[0].ty
+        for x in vals[1:]:
+            et = self._join_opt(et, x.ty)     # {a, b} with b Optional[T]: a set of Optional[T]
         term = z3.K(sort_of(et), z3.BoolVal(False))
         for x in vals:
             term = z3.Store(term, self.as_term(self.coerce(x, et, st), st), z3.BoolVal(True))
@@ -978,7 +980,12 @@ class Engine:
             cont = self.coerce(cont, cont.ty.args[0], st, 'container')
             k = cont.ty.kind
         if k == 'Set':
-            xe = self.coerce(x, cont.ty.args[0], st)
+            et = cont.ty.args[0]
+            if x.ty.kind == 'Tuple' and et.kind == 'Tuple' and len(x.ty.args) != len(et.args):
+                # a tuple of another length equals no element of a set whose elements all have the declared length
+                # (the declared element type is the assumption; listed with the machine-arithmetic assumptions)
+                return z3.BoolVal(False)
+            xe = self.coerce(x, et, st)
             return T.Sel(self.load(cont, st), self.as_term(xe, st))
         if k == 'Dict':
             self.refuse_total_dict(cont, 'membership test')
